@@ -17,7 +17,9 @@
 //
 //	cstat  0 not called, 1 at a HoldLock entry gate, 6 at a HoldLock exit gate, 2 blocked, 5 returned, 9 panicked
 //	cret   0 not returned, 1 nil, 2 context.Canceled, 3+e error e; errors no function returned: 96
-//	       context.DeadlineExceeded, 97 the cause of the caller's context (hctx.ErrCause), 99 any other error
+//	       context.DeadlineExceeded, 97 the cause of the caller's context (hctx.ErrCause), 99 any other error;
+//	       98 the call returned having overwritten entries of the caller's list of functions (a second call with
+//	       the same list would not run them)
 //	wstat  0 nil entry / not entered, 3 inside the function, 1 at the gate of its record section,
 //	       4 finished (left its record section; or returned in the one-function path), 2 blocked elsewhere
 //	entries  how often function i was entered;  ctxc  1 if entered and the context it received is cancelled
@@ -235,7 +237,14 @@ func (s *sys) exec(ev []uint64) (obs []uint64, ok bool, actual []uint64) {
 		s.caller = a
 		ctx := s.ctx
 		s.c.Go(a, func(a *ctl.Actor) {
-			a.Res = errCode(ccall.CallConcurrently(ctx, fns...))
+			res := errCode(ccall.CallConcurrently(ctx, fns...))
+			// fns... hands the callee the caller's own slice: the list belongs to the caller, who may pass it again
+			for i, f := range s.fns {
+				if f && fns[i] == nil {
+					res = 98
+				}
+			}
+			a.Res = res
 		})
 		synctest.Wait()
 	case ev[0] == 2 && len(ev) == 3 && ev[1] == 0:
